@@ -96,3 +96,24 @@ def crop_bezier_branches(c, n):
     c.ensures('crop(0,t).point(u)==point(u*t)', ops.eq(bez.bern(_bp(c, a), u), bez.bern(P, u * t)))
     b = c.call('path.crop_bezier', seg, t, 1)
     c.ensures('crop(t,1).point(u)==point(t+u*(1-t))', ops.eq(bez.bern(_bp(c, b), u), bez.bern(P, t + u * (1 - t))))
+
+
+# ---------------------------------------------------------------- paths
+
+from contracts.c05 import mkpath  # noqa: E402
+
+
+@contract('C09', 'path.Path.reversed', params=[{'kinds': k} for k in ['L', 'C', 'LQ', 'QLC', 'CCL']], level='per-shape')
+def path_reversed(c, kinds):
+    path, segs, pts = mkpath(c, kinds)
+    n = len(segs)
+    u = c.real('u')
+    rev = c.callm(path, 'reversed')
+    rs = list(c.items(rev))
+    c.ensures('same-number-of-segments', len(rs) == n)
+    for i in range(n):
+        j = n - 1 - i
+        c.ensures('segment-%d-is-the-reversal-of-segment-%d' % (i, j),
+                  ops.And(c.isinstance(rs[i], {2: 'path.Line', 3: 'path.QuadraticBezier', 4: 'path.CubicBezier'}[len(pts[j])]),
+                          ops.eq(bez.bern(_bp(c, rs[i]), u), bez.bern(pts[j], 1 - u))))
+    c.ensures('start/end-swapped', ops.And(ops.eq(c.get(rev, 'start'), pts[-1][-1]), ops.eq(c.get(rev, 'end'), pts[0][0])))
